@@ -686,6 +686,10 @@ func runScan(c *vh.Ctx, cp *corpus) {
 	s.extracts(60*k, cp)
 	s.diags(150 * k)
 	s.muxes(25 * k)
+	s.offsets(110*k, cp)
+	s.extractCbor(40 * k)
+	s.arrayItems(60 * k)
+	s.protos(40 * k)
 	s.cf.Flush()
 	var parts []string
 	for _, k := range vh.SortedKeys(s.n) {
